@@ -179,6 +179,16 @@ def gen_index(run):
             case = {'in': {'formula': form, 'rows': rows, 'cols': cols, 'mode': 'index'}, 'ideal': ideal_text(exp), 'obs': show(*res), 'kind': 'index'}
             run.judge(case, ok, clause=f'{form} on a {rows}x{cols} area holding 100*row+col = {show(*res)}, expected {ideal_text(exp)}', part='index')
             run.traces_validated += 1
+            # the same request while ANOTHER cell of the area holds an error value: INDEX returns the addressed element, not what else the area holds
+            if rows * cols >= 2 and isinstance(exp, int) and exp > 0:
+                last = 100 * rows + cols
+                ov = [(0, cols - 1, rows - 1, '#DIV/0!')] + ([(0, 6, 0, w[1]), (0, 7, 0, w[2])] if isinstance(w, tuple) else [])
+                res = p.eval(ov, idxs=(i,))[0]
+                exp2 = ERR if exp == last else exp
+                case = {'in': {'formula': form, 'rows': rows, 'cols': cols, 'mode': 'index', 'error_cell': [rows, cols]}, 'ideal': ideal_text(exp2), 'obs': show(*res), 'kind': 'index'}
+                run.judge(case, conforms(exp2, code(*res)), part='index',
+                          clause=f'{form} on a {rows}x{cols} area holding 100*row+col, its last cell holding #DIV/0! = {show(*res)}, expected {ideal_text(exp2)}')
+                run.traces_validated += 1
 
 
 def _address_job(rec):
